@@ -74,6 +74,7 @@ class SeqV:
         self.blocks = None      # concatenation of varying-length blocks: dict(n, off, blen, block, n0)
         self.rows2d = None      # 2-D array given as a sequence of equally long rows (np.array(list of 1-D arrays))
         self.row_len = None
+        self.shared_elems = False   # a shallow copy of this list exists: element lists may be aliased
         self.birth = next(_counter)
 
     @property
